@@ -12,7 +12,7 @@ from concurrent.futures import ThreadPoolExecutor
 import vlib
 from engines import register
 
-PARSE_EV = {"0": "ParseBegin", "1": "ParseEnd", "2": "ParseFail"}   # PackageParsing, PackageParsed, ParseFailed
+PARSE_EV = {"1": "ParseEnd", "2": "ParseFail"}   # PackageParsed, ParseFailed
 TERMINAL = {"5", "6", "7"}   # TargetBuilt, TargetCached, TargetBuildFailed (src/core/state.go)
 
 
@@ -93,6 +93,32 @@ SUBINCLUDE_VARIANTS = {
 }
 
 
+def render_dynamic(root, sc, trace):
+    """Dependencies discovered during the build, two levels deep: t2's post-build function adds t3 to t1, and t3's own
+    post-build function adds t4 to t1 while t1 is already waiting; t4 is slow (variant dynamic) or fails (dynamic-fail)."""
+    os.makedirs(os.path.join(root, "a"), exist_ok=True)
+    with open(os.path.join(root, ".plzconfig"), "w") as f:
+        f.write("[build]\npath = /usr/local/bin:/usr/bin:/bin\n[cache]\ndir =\n")
+
+    def cmd(t, body, rc=0):
+        return ("printf '%%s\\n' '{\"ev\":\"Start\",\"t\":\"%d\"}' >> %s; %s; printf '%%s\\n' '{\"ev\":\"End\",\"t\":\"%d\",\"rc\":%d}' >> %s%s"
+                % (t, trace, body, t, rc, trace, "; exit 1" if rc else ""))
+    fails = sc["variant"] == "dynamic-fail"
+    text = ('def _found3(name, output):\n    add_dep("t1", ":t3")\n\n'
+            'def _found4(name, output):\n    add_dep("t1", ":t4")\n\n'
+            'genrule(\n    name = "t4",\n    outs = ["t4.out"],\n    cmd = %s,\n)\n'
+            'genrule(\n    name = "t3",\n    outs = ["t3.out"],\n    cmd = %s,\n    post_build = _found4,\n)\n'
+            'genrule(\n    name = "t2",\n    outs = ["t2.out"],\n    cmd = %s,\n    post_build = _found3,\n)\n'
+            'genrule(\n    name = "t1",\n    outs = ["t1.out"],\n    deps = [":t2"],\n    cmd = %s,\n)\n'
+            % (json.dumps(cmd(4, "sleep 1.2" + ("" if fails else "; echo x > $OUT"), 1 if fails else 0)),
+               json.dumps(cmd(3, "sleep 0.4; echo x > $OUT; echo found")),
+               json.dumps(cmd(2, "echo x > $OUT; echo found")),
+               json.dumps(cmd(1, "echo x > $OUT"))))
+    with open(os.path.join(root, "a", "BUILD"), "w") as f:
+        f.write(text)
+    return {1: "a", 2: "a", 3: "a", 4: "a"}
+
+
 def render_subinclude(root, sc, trace):
     head, bbuild, _ = SUBINCLUDE_VARIANTS[sc["variant"]]
     os.makedirs(os.path.join(root, "a"), exist_ok=True)
@@ -116,7 +142,10 @@ def run_scenario(ctx, idx, sc, seed, hang_timeout=40):
     root = os.path.join(base, "repo")
     trace = os.path.join(base, "trace.ndjson")
     os.makedirs(base, exist_ok=True)
-    pkg = render_subinclude(root, sc, trace) if sc.get("variant") else render(root, sc, trace, rng)
+    if sc.get("variant", "").startswith("dynamic"):
+        pkg = render_dynamic(root, sc, trace)
+    else:
+        pkg = render_subinclude(root, sc, trace) if sc.get("variant") else render(root, sc, trace, rng)
     threads = sc.get("threads") or rng.choice([1, 2, 4, 16])
     cmd = [vlib.build_plz(), "-p", "-v", "1", "-n", str(threads), "build"]
     if sc["keepGoing"]:
@@ -151,8 +180,11 @@ def run_scenario(ctx, idx, sc, seed, hang_timeout=40):
                 recs.append(e)
             elif e["ev"] == "Report" and e.get("status") == "Build" and e.get("code") in TERMINAL and e["label"] in lab2t:
                 recs.append(dict(ev="Report", t=str(lab2t[e["label"]]), code=int(e["code"])))
+            elif e["ev"] == "ParseBegin":
+                recs.append(dict(ev="ParseBegin", p=e["label"].split(":")[0].lstrip("/") or "."))
             elif e["ev"] == "Report" and e.get("status") == "Parse" and e.get("code") in PARSE_EV:
-                # PackageParsing / PackageParsed / ParseFailed of the package the label lives in
+                # PackageParsed / ParseFailed of the package the label lives in (PackageParsing is also what a post-build
+                # function's run is reported as, so the start of a parse has an event of its own)
                 recs.append(dict(ev=PARSE_EV[e["code"]], p=e["label"].split(":")[0].lstrip("/") or "."))
     if not hung:
         recs.append(dict(ev="Exit", code=rc))
@@ -335,6 +367,11 @@ def common(ctx, prop):
         ctx.extra["scenarios_enumerated_by_tlc"] = len(gen)
         cases = pick(ctx, gen, 160, 32) if ctx.quick else pick(ctx, gen, 3000, 600)
         cases += extra_scenarios(ctx, 24 if ctx.quick else 200)
+        # dependencies discovered while the build runs (post-build functions calling add_dep), two levels deep
+        for thr in ((2, 4, 16) if ctx.quick else (1, 2, 3, 4, 8, 16)):
+            for kg in (False, True):
+                cases.append(dict(n=4, deps=[[2, 3, 4], [], [], []], req=[1], fail=[], keepGoing=kg, expectOK=True, variant="dynamic", threads=thr))
+                cases.append(dict(n=4, deps=[[2, 3, 4], [], [], []], req=[1], fail=[4], keepGoing=kg, expectOK=False, variant="dynamic-fail", threads=thr))
         if prop == "C05":
             # design level, parse side: termination and faithful failure with BUILD errors / missing targets, and the
             # variant in which Run() waits for parse goroutines (never terminates behind a failed package)
